@@ -5,6 +5,7 @@ import (
 	"fmt"
 
 	"gopkg.in/typ.v4/lists"
+	"verif/lib/enum"
 	"verif/lib/ev"
 	"verif/lib/fp"
 	"verif/lib/seqmc"
@@ -249,6 +250,52 @@ func main() {
 		r.Report(ev.Violation{Sig: "nil-stack", Msg: "Pop on nil *Stack"})
 	}
 	fc := family(r, ev.Pick(r, 600, 5000))
+	{ // long-history churn: one queue and one stack, hundreds of thousands of calls
+		n := ev.Pick(r, 200000, 3000000)
+		var q lists.Queue[int]
+		var st lists.Stack[int]
+		var mq, ms []int
+		var g enum.LCG = 5
+		for i := 0; i < n; i++ {
+			push := g.Next(100) < 52 && len(mq) < 300
+			if i%5000 > 4000 {
+				push = false // drain phases
+			}
+			if ev.Tracing() {
+				ev.Trace(map[string]any{"family": "churn", "step": i, "push": push})
+			}
+			bad := ""
+			if push {
+				q.Enqueue(i)
+				st.Push(i)
+				mq, ms = append(mq, i), append(ms, i)
+			} else {
+				qv, qok := q.Dequeue()
+				sv, sok := st.Pop()
+				if len(mq) == 0 {
+					if qok || sok || qv != 0 || sv != 0 {
+						bad = "removal from an empty container succeeded"
+					}
+				} else {
+					if !qok || qv != mq[0] {
+						bad = fmt.Sprintf("Dequeue = (%d,%v), want %d", qv, qok, mq[0])
+					}
+					if !sok || sv != ms[len(ms)-1] {
+						bad = fmt.Sprintf("Pop = (%d,%v), want %d", sv, sok, ms[len(ms)-1])
+					}
+					mq, ms = mq[1:], ms[:len(ms)-1]
+				}
+			}
+			if pv, pok := q.Peek(); bad == "" && (pok != (len(mq) > 0) || (pok && pv != mq[0]) || q.Len() != len(mq) || len(st) != len(ms)) {
+				bad = fmt.Sprintf("Peek = (%d,%v), Len %d / %d, model %d", pv, pok, q.Len(), len(st), len(mq))
+			}
+			if bad != "" {
+				r.Report(ev.Violation{Sig: "family|churn", Msg: fmt.Sprintf("call %d of a long history: %s", i, bad), Replay: map[string]any{"family": "churn", "step": i}})
+				break
+			}
+		}
+		r.Set("churn_family_operations", n)
+	}
 	r.Set("family_calls", fc)
 	r.Set("states", rq.States+rs.States)
 	r.Set("transitions", rq.Transitions+rs.Transitions)
